@@ -483,13 +483,15 @@ def gen_wiring_case(rng, name):
         next_id[0] += 1
         return next_id[0]
 
+    tmult = {t: rng.choice([1.0, 1.0, 2.0, 0.5]) for t in tickers}     # one contract size per ticker
+
     def sec(t):
         u = rng.random()
-        if u < 0.4:
+        if u < 0.35:
             return ["sec", t, "sec", False, hx(1.0), "str"]
-        if u < 0.65:
-            return ["sec", t, "sec", False, hx(rng.choice([1.0, 2.0])), True]
-        return ["sec", t, "sec", False, hx(rng.choice([1.0, 2.0, 0.5])), False]
+        if u < 0.7:
+            return ["sec", t, "sec", False, hx(tmult[t]), True]
+        return ["sec", t, "sec", False, hx(tmult[t]), False]
 
     def leaf(depth):
         decl = rng.sample(tickers, rng.randint(1, nt)) if rng.random() < 0.7 else []
@@ -507,7 +509,7 @@ def gen_wiring_case(rng, name):
         if rng.random() < 0.4:
             kids.insert(rng.randrange(len(kids) + 1), sec(rng.choice(tickers)))
             all_strats = False
-        how = rng.choice(["list", "dict", "late"]) if all_strats else rng.choice(["list", "dict"])
+        how = rng.choice(["list", "dict", "late", "late"]) if all_strats else rng.choice(["list", "dict"])
         first = rng.choice([["runonce"], ["runperiod", "daily", True, False, False], ["runperiod", "weekly", True, False, True]])
         # act on the universe: SelectAll sees the sub-strategy columns (and, for a strategy that declared no ticker, every ticker)
         if rng.random() < 0.6:
@@ -526,7 +528,7 @@ def gen_wiring_case(rng, name):
     return {"name": name, "dates": dates, "intpos": rng.random() < 0.5, "comm": comm, "prices": prices,
             "bidoffer": None, "coupons": None, "cost_long": None, "cost_short": None, "adata": g.adata,
             "capital": hx(float(rng.choice([100000, 1000000]))), "tree": tree, "pyseed": rng.randint(0, 1000),
-            "preset_comm": rng.random() < 0.5}
+            "preset_comm": rng.random() < 0.5, "share_objects": rng.random() < 0.5}
 
 
 def gen_wiring_cases(seed, n, prefix="t"):
